@@ -13,7 +13,7 @@ import impl_session as S
 
 
 class FrontServer(object):
-    def __init__(self, logging_level=None, extra_conf="", tls_client_auth=True):
+    def __init__(self, logging_level=None, extra_conf="", tls_client_auth=True, tls_line=None):
         from kmip.services.server import server as kmip_server
         from kmip.services.server import engine as server_engine
         from kmip.core import policy as operation_policy
@@ -27,8 +27,10 @@ class FrontServer(object):
         self.config_path = os.path.join(self.dir, "server.conf")
         with open(self.config_path, "w") as f:
             f.write("[server]\nhostname=127.0.0.1\nport=5696\ncertificate_path={0}/server.crt\nkey_path={0}/server.key\n"
-                    "ca_path={0}/ca.crt\nauth_suite=TLS1.2\npolicy_path={0}/policies\nenable_tls_client_auth={1}\n"
-                    "database_path={0}/pykmip.db\n".format(self.dir, "True" if tls_client_auth else "False"))
+                    "ca_path={0}/ca.crt\nauth_suite=TLS1.2\npolicy_path={0}/policies\n{1}"
+                    "database_path={0}/pykmip.db\n".format(
+                        self.dir, tls_line if tls_line is not None else
+                        "enable_tls_client_auth=%s\n" % ("True" if tls_client_auth else "False")))
             if logging_level is not None:
                 f.write("logging_level=%s\n" % logging_level)
             f.write(extra_conf)
